@@ -18,7 +18,7 @@ from common.util import Result, err_kind
 from common import meshes, routing
 
 ID = 'C11'
-N = {'quick': 1200, 'thorough': 30000}
+N = {'quick': 1000, 'thorough': 20000}
 LEAN_MODULES = ['GnpyProofs.Props.C11']
 THEOREMS = [f'Gnpy.Route.{t}' for t in (
     'simplePaths_sound', 'simplePaths_complete', 'simplePaths_iff', 'validPaths_iff', 'checkRoute_iff',
